@@ -2126,11 +2126,14 @@ func parseForeignContent(p *parser) bool {
 			p.acknowledgeSelfClosingTag()
 		}
 	case EndTagToken:
-		if strings.EqualFold(p.oe[len(p.oe)-1].Data, p.tok.Data) {
+		// The bottom of the stack is the root <html> element. It is never in
+		// foreign content and is not popped here: in the fragment case with a
+		// foreign context element it can be the current node.
+		if len(p.oe) > 1 && strings.EqualFold(p.oe[len(p.oe)-1].Data, p.tok.Data) {
 			p.oe = p.oe[:len(p.oe)-1]
 			return true
 		}
-		for i := len(p.oe) - 1; i >= 0; i-- {
+		for i := len(p.oe) - 1; i > 0; i-- {
 			if strings.EqualFold(p.oe[i].Data, p.tok.Data) {
 				p.oe = p.oe[:i]
 				return true
